@@ -92,17 +92,27 @@ def polydist_class(cuqi):
             self._attrs = []
             for i, s in enumerate(spec["slots"]):
                 if s["kind"] == "fixed":
-                    attr, val = "q%d" % i, np.array(s["val"])
+                    attr, val = attr_name(i), np.array(s["val"])
                 elif s["kind"] == "unset":
                     attr, val = names[s["var"]], None
                 else:
-                    attr = "q%d" % i
+                    attr = attr_name(i)
                     argn = [names[j] for j in s["args"]]
-                    src = "def _f(%s, _a=_a, _b=_b, _S=_S):\n    return _b + %s\n" % (
+                    src = "def _f(%s):\n    return _b + %s\n" % (
                         ", ".join(argn), " + ".join("_a[%d]*_S(%s)" % (k, n) for k, n in enumerate(argn)))
                     env = {"_a": tuple(s["a"]), "_b": s["b"], "_S": S}
                     exec(src, env)
                     val = env["_f"]
+                    style = s.get("style", "def")
+                    if style == "lambda":
+                        val = eval("lambda %s: _f(%s)" % (", ".join(argn), ", ".join(argn)), env)
+                    elif style == "partial":           # the user's own functools.partial over a function with one more argument
+                        exec("def _g(%s, _extra):\n    return _f(%s) + _extra\n" % (", ".join(argn), ", ".join(argn)), env)
+                        import functools
+                        val = functools.partial(env["_g"], _extra=0)
+                    elif style == "object":            # an instance with __call__
+                        exec("class _C:\n    def __call__(self, %s):\n        return _f(%s)\n" % (", ".join(argn), ", ".join(argn)), env)
+                        val = env["_C"]()
                 setattr(self, attr, val)
                 self._attrs.append(attr)
 
@@ -134,6 +144,8 @@ def polydist_class(cuqi):
 # graph generator: explicit cells, values inside cells from the rng
 # ------------------------------------------------------------------------------------------
 def rand_vec(rng, dim):
+    if rng.random() < 0.08:
+        return [0] * dim               # falsy-but-legitimate: a variable fixed to exactly zero
     return [rng.randint(-9, 9) for _ in range(dim)]
 
 
@@ -142,7 +154,8 @@ def mk_slot(rng, kind, parents):
         return {"kind": "fixed", "val": [rng.randint(-5, 5)]}
     if kind == "unset":
         return {"kind": "unset", "var": parents[0]}
-    return {"kind": "fn", "args": list(parents), "a": [rng.choice([-3, -2, -1, 1, 2, 3]) for _ in parents], "b": rng.randint(-4, 4)}
+    return {"kind": "fn", "args": list(parents), "a": [rng.choice([-3, -2, -1, 1, 2, 3]) for _ in parents], "b": rng.randint(-4, 4),
+            "style": rng.choice(["def", "lambda", "partial", "object"])}
 
 
 def mk_factor(rng, name, dim, slots):
@@ -362,13 +375,20 @@ ATTR = 100         # ids 100+i : the attribute name "q<i>" of the i-th mutable v
 STACKKEY = 78      # the keyword `stacked_input` of _StackedJointDistribution.logd
 
 
+ATTRNAMES = ["qz", "qb", "qy", "qa", "qx", "qc", "qw", "qd"]     # declaration order is NOT alphabetical order
+
+
+def attr_name(i):
+    return ATTRNAMES[i] if i < len(ATTRNAMES) else "qq%d" % i
+
+
 def name_of(names, key):
     if key == UNKNOWN:
         return "foo"
     if key == STACKKEY:
         return "stacked_input"
     if key >= ATTR:
-        return "q%d" % (key - ATTR)
+        return attr_name(key - ATTR)
     return names[key]
 
 
@@ -376,13 +396,55 @@ def stack_vec(vals, ids):
     return [a for v in ids for a in (vals[v] if isinstance(vals[v], (list, tuple)) else [vals[v]])]
 
 
+class Vals(dict):
+    """values of the variables of one case, plus ONE argument object per variable that is passed to every call of the case
+    (aliasing: the same array object reaches many objects of the history) in a random dtype / memory layout / container"""
+    STYLES = ("int", "float", "strided", "list", "fortran2d")
+
+    def make_pool(self, rng, real=False):
+        self.pool, self.style = {}, {}
+        for j, v in self.items():
+            if isinstance(v, float):
+                self.pool[j] = v
+                self.style[j] = "scalar"
+                continue
+            st = rng.choice(("float", "strided") if real else self.STYLES)
+            if st == "int":
+                a = np.array(v)
+            elif st == "float":
+                a = np.array(v, dtype=float)
+            elif st == "strided":
+                a = np.array([x for y in v for x in (y, 99)], dtype=float if real else int)[::2]
+            elif st == "list":
+                a = list(v)
+            else:
+                a = np.asfortranarray(np.array([v, v], dtype=float).T)[:, 0]      # a column view of an F-ordered 2-d array
+            self.pool[j], self.style[j] = a, st
+        return self
+
+    def changed(self):
+        """names of variables whose argument object was modified by the calls (inputs must never be altered)"""
+        out = []
+        for j, a in getattr(self, "pool", {}).items():
+            ref = self[j]
+            same = (a == ref) if isinstance(a, float) else (list(np.asarray(a).ravel()) == list(np.asarray(ref).ravel()))
+            if not same:
+                out.append(j)
+        return out
+
+
+def arg_of(vals, j):
+    pool = getattr(vals, "pool", None)
+    return pool[j] if pool is not None and j in pool else toarg(vals[j])
+
+
 def do_call(f, names, vals, call):
     if "stack" in call:
         if call.get("stackkw"):
             return f(stacked_input=np.array(stack_vec(vals, call["stack"])))
         return f(np.array(stack_vec(vals, call["stack"])))
-    args = [toarg(vals[j]) for j in call["args"]]
-    kw = {name_of(names, k): toarg(vals[j]) for k, j in call["kw"]}
+    args = [arg_of(vals, j) for j in call["args"]]
+    kw = {name_of(names, k): arg_of(vals, j) for k, j in call["kw"]}
     return f(*args, **kw)
 
 
@@ -955,7 +1017,7 @@ class Prog:
 
     def kind(self, i):
         o = self.objs[i]
-        if o["flav"] in ("lik", "prior", "E", "fac", "upost"):
+        if o["flav"] in ("lik", "prior", "E", "fac", "upost", "subjoint"):
             return o["flav"]
         k = o["book"].kind()
         if not o["reduced"]:
@@ -1030,6 +1092,22 @@ class Prog:
         self.eval_all()
         return idx
 
+    def join_factors(self, srcs, fixed_after):
+        """JointDistribution(*factor objects) over a SUB-graph, then conditioned on `fixed_after`: a reduced Distribution that
+        carries the constants of the sub-graph's fixed variables (built from the very factor objects the big joint holds)"""
+        self.ops.append(("join", list(srcs)))
+        specs = [self.objs[i]["spec"] for i in srcs]
+        tot = sum(self.objs[i]["expect"] for i in srcs)
+        j = self.new(flav="subjoint", params=[f["name"] for f in specs], expect=tot, reduced=True, book=None)
+        self.eval_all()
+        kwv = list(fixed_after); self.rng.shuffle(kwv)
+        self.ops.append(("cond", j, {"args": [], "kw": [[v, v] for v in kwv]}, ""))
+        rest = [f for f in specs if f["name"] not in fixed_after]
+        d = self.new(flav="fac", spec=rest[0], bound={v: v for v in cond_vars_py(rest[0]["slots"])}, lik=False, data=None,
+                     expect=tot, reduced=True, book=None)
+        self.eval_all()
+        return d
+
     def stack(self, src):
         o = self.objs[src]
         self.ops.append(("stack", src))
@@ -1093,7 +1171,11 @@ def user_posterior_program(rng, fs, n, fvalue, vals):
     pairs = [(fy, x) for fy in fs for x in deps(fy)]
     if not pairs:
         return None
-    fy, x = rng.choice(pairs)
+    def root_hypers(x):
+        hx = cond_vars_py([f for f in fs if f["name"] == x][0]["slots"])
+        return bool(hx) and all(not deps(f) for f in fs if f["name"] in hx)
+    pref = [p_ for p_ in pairs if root_hypers(p_[1])]
+    fy, x = rng.choice(pref if (pref and rng.random() < 0.75) else pairs)
     fxs = [f for f in fs if f["name"] == x][0]
     P = Prog(rng, fs, fvalue, vals)
     P.eval_all()
@@ -1109,6 +1191,14 @@ def user_posterior_program(rng, fs, n, fvalue, vals):
     up = P.mkpost(ly, px)
     P.pcond(up, positional=True)
     P.pcond(up, positional=False)
+    # a second user posterior whose PRIOR carries folded constants: the sub-joint of x and its (root) hyper-parameters,
+    # conditioned on them, reduces to a Distribution in x with their log-densities in _constant
+    roots = [f for f in fs if f["name"] in hx and not deps(f)]
+    if hx and len(roots) == len(hx):
+        srcs = [P.factor(fs.index(f)) for f in roots] + [P.factor(fs.index(fxs))]
+        pxc = P.join_factors(srcs, hx)
+        up2 = P.mkpost(ly, pxc)
+        P.pcond(up2, positional=True)
     P.cond(0, [fy["name"]] + hy)
     return P
 
@@ -1208,12 +1298,12 @@ def run_history(cuqi, start, names, vals, ops, facs=None):
                 continue
             elif kind == "bpinit":
                 from cuqi.problem import BayesianProblem
-                bp = BayesianProblem(*facs, **{name_of(names, k): toarg(vals[j]) for k, j in op[2]})
+                bp = BayesianProblem(*facs, **{name_of(names, k): arg_of(vals, j) for k, j in op[2]})
                 o = bp._target
                 bps[len(objs)] = bp
             elif kind == "setdata":
                 bp = bps[op[1]]
-                bp.set_data(**{name_of(names, k): toarg(vals[j]) for k, j in op[2]})
+                bp.set_data(**{name_of(names, k): arg_of(vals, j) for k, j in op[2]})
                 o = bp._target
                 bps[len(objs)] = bp
             elif kind == "view":
@@ -1319,8 +1409,11 @@ def history_case(ctx, cuqi, strict, shape, kind, order, rng, variant="history"):
     ops, total = P.ops, P.total
     facs = [PD(f, names) for f in fs]
     start = cuqi.distribution.JointDistribution(*facs)
+    vals = Vals(vals).make_pool(rng)
     res = run_history(cuqi, start, names, vals, ops, facs)
     fail, sig = history_oracle(ops, res, total)
+    if not fail and vals.changed():
+        fail, sig = "the argument objects passed for %s were modified by the calls" % [names[j] for j in vals.changed() if j < len(names)], "input-mutated|history"
     meta = {"family": "poly", "variant": variant, "shape": shape, "branch": kind, "order": order, "names": names, "factors": fs,
             "values": {str(k): v for k, v in vals.items()}, "ops": [list(op) for op in ops[:len(res)]]}
     expr = "check_history %s 0%%Q %s %s" % (flags(), clist([cdens(f, vals, fvalue[f["name"]], False, alts=P.alts.get(f["name"], ())) for f in fs]),
@@ -1394,8 +1487,11 @@ def dens_history_case(ctx, cuqi, rng, nargs):
     cond(a, [0] + [v for v in cv if v != staged[0]][:1])
     cond(0, cv[:1], positional=True)
     d = PD(spec, names)
+    vals = Vals(vals).make_pool(rng)
     res = run_history(cuqi, d, names, vals, ops)
     fail, sig = history_oracle(ops, res, value)
+    if not fail and vals.changed():
+        fail, sig = "argument objects were modified by the calls", "input-mutated|dens-history"
     meta = {"family": "poly", "variant": "dens-history", "names": names, "factors": [spec],
             "values": {str(k): v for k, v in vals.items()}, "ops": [list(op) for op in ops[:len(res)]]}
     expr = "check_history_dens %s 0%%Q %s %s" % (flags(), cdens(spec, vals, value, False),
